@@ -108,14 +108,14 @@ def run_tail(run):
 
 
 def recompute_set(run, ncaches):
-    if run.get("op") != "recompute":
+    if run.get("op") not in ("recompute", "dropre"):
         return set()
     w = run.get("which", "all")
     return set(range(ncaches)) if w == "all" else {w}
 
 
 def drop_set(run, ncaches):
-    if run.get("op") != "drop":
+    if run.get("op") not in ("drop", "dropre"):
         return set()
     w = run.get("which", "all")
     return set(range(ncaches)) if w == "all" else {w}
@@ -335,7 +335,7 @@ class Model(object):
             return {"cause": {"law": "later-run-leaves-upstream-untouched", "touched": "source (it raised)"},
                     "expected": expected}
         # 4. recompute / drop not honoured: behaves as if the operation had not happened
-        if run.get("op") in ("recompute", "drop"):
+        if run.get("op") in ("recompute", "drop", "dropre"):
             plain = dict(run)
             plain["op"] = "none"
             for s in before.values():
